@@ -67,6 +67,7 @@ def run(chk):
     plan = []      # (kind, i_base, i_other, extra)
     foots = []
     for wi in range(40 if quick else 500):
+        rng.seed("%d/c10-1/%d" % (chk.seed, wi))      # every world has its own stream: families do not disturb each other
         sph = rng.random() < 0.3
         wj, sph, f = line_world(rng, spherical=sph, straight=rng.random() < 0.2, uniform_sections=rng.random() < 0.3,
                                 allow_mass_conserving=False, extra_area=0.2)
